@@ -253,27 +253,53 @@ func C18(ctx *core.Ctx) {
 	// call: Audit never reads those fields before it has stored them (a model
 	// kept from an earlier Audit of the same Auditor is another file's).
 	ctx.Rule("C18.R6", "every Audit call compares the models parsed from its own two files: the auditor's model fields are not read before this call stored them", 2)
+	// the comparison part of Audit may be a method of its own (compare(old, new)):
+	// the driver is Audit plus the Auditor methods it hands BOTH models to
+	drivers := []*ssa.Function{audit}
+	driverCall := map[*ssa.Function]ssa.Instruction{}
+	for _, c := range ssax.Calls(audit) {
+		h := c.Static
+		if h == nil || h == audit || h.Signature.Recv() == nil || !ssax.TypeNamed(h.Signature.Recv().Type(), "", "Auditor") || len(h.Blocks) == 0 {
+			continue
+		}
+		nFr := 0
+		for _, a := range c.Common.Args[1:] {
+			if ssax.TypeNamed(a.Type(), "", "Frugal") {
+				nFr++
+			}
+		}
+		if nFr >= 2 {
+			drivers = append(drivers, h)
+			driverCall[h] = c.Instr.(ssa.Instruction)
+		}
+	}
 	for _, field := range []string{"oldFrugal", "newFrugal"} {
 		var stores, loads []ssa.Instruction
-		ssax.Instrs(audit, func(in ssa.Instruction) {
-			switch x := in.(type) {
-			case *ssa.Store:
-				if fieldNameOfAddr(x.Addr) == field {
-					stores = append(stores, in)
-				}
-			case *ssa.UnOp:
-				if x.Op == token.MUL && fieldNameOfAddr(x.X) == field {
-					if fa, ok := x.X.(*ssa.FieldAddr); ok && ssax.TypeNamed(fa.X.Type(), "", "Auditor") {
-						loads = append(loads, in)
+		for _, d := range drivers {
+			ssax.Instrs(d, func(in ssa.Instruction) {
+				switch x := in.(type) {
+				case *ssa.Store:
+					if fieldNameOfAddr(x.Addr) == field {
+						stores = append(stores, in)
+					}
+				case *ssa.UnOp:
+					if x.Op == token.MUL && fieldNameOfAddr(x.X) == field {
+						if fa, ok := x.X.(*ssa.FieldAddr); ok && ssax.TypeNamed(fa.X.Type(), "", "Auditor") {
+							loads = append(loads, in)
+						}
 					}
 				}
-			}
-		})
+			})
+		}
 		bad := ""
 		for _, ld := range loads {
 			dom := false
 			for _, st := range stores {
-				if ssax.Dominates(st, ld) {
+				if st.Parent() == ld.Parent() && ssax.Dominates(st, ld) {
+					dom = true
+				}
+				// a load in the helper after a store in Audit that precedes the helper's call
+				if call, isHelper := driverCall[ld.Parent()]; isHelper && st.Parent() == audit && ssax.Dominates(st, call) {
 					dom = true
 				}
 			}
@@ -1016,13 +1042,15 @@ func C18(ctx *core.Ctx) {
 	wire := []string{"Scopes", "Enums", "Structs", "Exceptions", "Unions", "Services", "Namespaces", "Constants"}
 	for _, fld := range wire {
 		ok := false
-		for _, c := range ssax.Calls(audit) {
-			if c.Static == nil || !k.cone[c.Static] || len(c.Common.Args) < 3 {
-				continue
-			}
-			a1, a2 := c.Common.Args[1], c.Common.Args[2]
-			if fieldNameOfValue(a1) == fld && fieldNameOfValue(a2) == fld && k.of(a1) == cOld && k.of(a2) == cNew {
-				ok = true
+		for _, d := range drivers {
+			for _, c := range ssax.Calls(d) {
+				if c.Static == nil || !k.cone[c.Static] || len(c.Common.Args) < 3 {
+					continue
+				}
+				a1, a2 := c.Common.Args[1], c.Common.Args[2]
+				if fieldNameOfValue(a1) == fld && fieldNameOfValue(a2) == fld && k.of(a1) == cOld && k.of(a2) == cNew {
+					ok = true
+				}
 			}
 		}
 		ctx.Check(ok, "C18.R3", "Audit › "+fld+" of both programs are compared (old, new)", cc.FPos(audit), "check…(oldFrugal."+fld+", newFrugal."+fld+")", "declaration kind "+fld+" is not audited (or audited with the sides swapped): breaking changes in it pass")
